@@ -12,6 +12,7 @@ package gortsplib
 
 import (
 	"net"
+	"sort"
 	"time"
 )
 
@@ -135,8 +136,8 @@ type VerifPeerListenerInfo struct {
 	LastPacketTime int64
 }
 
-// VerifPeerClientListeners returns, for every setupped media (in SETUP order is not
-// guaranteed; sorted by local port), its RTP and RTCP listener.
+// VerifPeerClientListeners returns, for every setupped media (sorted by local RTP port),
+// its RTP and RTCP listener.
 func VerifPeerClientListeners(c *Client) [][2]VerifPeerListenerInfo {
 	var out [][2]VerifPeerListenerInfo
 	for _, cm := range c.setuppedMedias {
@@ -154,6 +155,7 @@ func VerifPeerClientListeners(c *Client) [][2]VerifPeerListenerInfo {
 		}
 		out = append(out, e)
 	}
+	sort.Slice(out, func(i, j int) bool { return out[i][0].LocalPort < out[j][0].LocalPort })
 	return out
 }
 
